@@ -35,7 +35,9 @@ def run(ck):
         "rate block total and padded. (TABLE) MDS x INV_MDS = I, ALPHA x INV_ALPHA = 1 mod p-1 with gcd(ALPHA, p-1) = 1, table "
         "shapes, circulant structure of the MDS used by the frequency-domain fast path. (SEP) in every sponge entry the value "
         "stored into the capacity depends on the input length (or on the two different constants of merge_with_int, whose "
-        "second limb is value / MODULUS). Equality with the Rescue/BLAKE/SHA specifications is not decided."
+        "second limb is value / MODULUS). (FAST) the frequency-domain MDS multiplication (12x12, 8x8) equals the product with the MDS "
+        "table modulo p for every state, including the carry of its final 128->64 bit fold (engine E5b). Equality with the Rescue/BLAKE/SHA "
+        "specifications beyond that (round constants, S-box exponents) is not decided."
     )
     ck.rule("REPR", "elements_as_bytes only under IS_CANONICAL; otherwise the elements are serialised")
     ck.rule("CHUNK", "last-chunk decision of the byte sponge uses a monotone chunk counter (all Rescue hashers agree)")
